@@ -176,6 +176,7 @@ def translate(src_root):
     emit = L.append
     emit("""import DtsVerif.Props.C06
 import DtsVerif.Props.C04
+import DtsVerif.Model.TimeCoords
 import Mathlib.Tactic.Ring
 import Mathlib.Tactic.FieldSimp
 /-! GENERATED by harness/translate.py from the current dts_accessor.py — do not edit. -/
@@ -666,9 +667,86 @@ def translate_layout(src_root):
     return "\n".join(L) + "\n"
 
 
+# ================================================================================================ time coordinates
+def translate_time(src_root):
+    """`io/utils.coords_time`: the arithmetic of the nine coordinates in both modes, proved equal to `TimeCoords.coords`.
+    NumPy semantics written into this translator (trusted): `astype("timedelta64[s]")` truncates toward zero to whole seconds
+    (`truncSec`), `timedelta64[s] / 2` is integer division truncating toward zero (`halfSec`), `.copy()` is the identity."""
+    tree = ast.parse((Path(src_root) / "dtscalibration" / "io" / "utils.py").read_text())
+    fn = None
+    for node in ast.walk(tree):
+        if isinstance(node, ast.FunctionDef) and node.name == "coords_time":
+            fn = node
+    if fn is None:
+        raise Untranslatable("coords_time not found")
+    branch = [st for st in fn.body if isinstance(st, ast.If) and ast.unparse(st.test) == "not double_ended_flag"]
+    if len(branch) != 1:
+        raise Untranslatable("coords_time: `if not double_ended_flag` not found exactly once")
+    L = ["\nnamespace DtsVerif.GenTime\nopen DtsVerif.TimeCoords\n"]
+
+    def tr(n, env):
+        if isinstance(n, ast.Name):
+            if n.id == "maxTimeIndex":
+                return "e"
+            if n.id in env:
+                return env[n.id]
+            raise Untranslatable(f"coords_time: unknown name {n.id}")
+        if isinstance(n, ast.Call) and isinstance(n.func, ast.Attribute) and n.func.attr == "copy" and not n.args:
+            return tr(n.func.value, env)
+        if isinstance(n, ast.Call) and isinstance(n.func, ast.Attribute) and n.func.attr == "astype" and len(n.args) == 1 \
+                and isinstance(n.args[0], ast.Constant) and n.args[0].value == "timedelta64[s]" and isinstance(n.func.value, ast.Name) \
+                and n.func.value.id in ("dtFW", "dtBW"):
+            return "(truncSec F * NS)" if n.func.value.id == "dtFW" else "(truncSec B * NS)"
+        if isinstance(n, ast.BinOp) and isinstance(n.op, ast.Div) and isinstance(n.right, ast.Constant) and n.right.value == 2:
+            inner = tr(n.left, env)
+            if inner == "(truncSec F * NS)":
+                return "(halfSec (truncSec F) * NS)"
+            if inner == "(truncSec B * NS)":
+                return "(halfSec (truncSec B) * NS)"
+            raise Untranslatable("coords_time: halving something that is not an acquisition time")
+        if isinstance(n, ast.BinOp) and isinstance(n.op, (ast.Add, ast.Sub)):
+            return f"({tr(n.left, env)} {'+' if isinstance(n.op, ast.Add) else '-'} {tr(n.right, env)})"
+        raise Untranslatable(f"coords_time: expression outside the fragment: {ast.unparse(n)[:80]}")
+
+    for mode, body, dbl in (("single", branch[0].body, "false"), ("double", branch[0].orelse, "true")):
+        env, zipped = {}, None
+        for st in body:
+            if isinstance(st, ast.Assign) and len(st.targets) == 1 and isinstance(st.targets[0], ast.Name):
+                name = st.targets[0].id
+                if name == "coords_zip":
+                    zipped = st.value
+                else:
+                    env[name] = tr(st.value, env)
+            else:
+                raise Untranslatable(f"coords_time ({mode}): statement outside the fragment: {ast.unparse(st)[:60]}")
+        if not isinstance(zipped, ast.List):
+            raise Untranslatable(f"coords_time ({mode}): coords_zip is not a list")
+        names = []
+        for el in zipped.elts:
+            if not (isinstance(el, ast.Tuple) and len(el.elts) == 2 and isinstance(el.elts[0], ast.Constant)):
+                raise Untranslatable("coords_time: coords_zip entry is not (name, value)")
+            nm = el.elts[0].value
+            names.append(nm)
+            L.append(f"def {mode}_{nm} (e : Int) (F B : Rat) : Int := {tr(el.elts[1], env)}")
+            L.append(f"theorem {mode}_{nm}_eq (e : Int) (F B : Rat) : {mode}_{nm} e F B = (coords {dbl} e F B).{nm} := by\n"
+                     f"  simp only [{mode}_{nm}, coords]\n  all_goals try simp\n  all_goals try ring")
+        want = ["timestart", "timeend", "time"] if mode == "single" else \
+            ["timeFWstart", "timeFWend", "timeFW", "timeBWstart", "timeBWend", "timeBW", "timestart", "timeend", "time"]
+        if sorted(names) != sorted(want):
+            raise Untranslatable(f"coords_time ({mode}) reports {names}")
+    # the time-zone chain applied to every coordinate
+    src = ast.unparse(fn)
+    for chain in ("pd.DatetimeIndex(v).tz_localize(tz=timezone_input_files).tz_convert(timezone_netcdf).tz_localize(None)",
+                  "pd.DatetimeIndex(v).tz_convert(timezone_netcdf).tz_localize(None)"):
+        if chain not in src:
+            raise Untranslatable(f"coords_time: the conversion chain `{chain}` is gone")
+    L.append("\nend DtsVerif.GenTime")
+    return "\n".join(L) + "\n"
+
+
 def translate_all(src_root):
     text, names = translate(src_root)
-    return text + translate_layout(src_root), names
+    return text + translate_layout(src_root) + translate_time(src_root), names
 
 
 if __name__ == "__main__":
